@@ -6,8 +6,10 @@
 (* (static analysis of dumped bytecode, C07 / static part of C16) and      *)
 (* VMTrace.tla (validation of per-instruction traces of the real VM).      *)
 (*                                                                         *)
-(* An instruction is a record [op |-> "Constant", a |-> 3] (Process also   *)
-(* has b); TailCall(true) is a = 1, TailCall(false) is a = 0.              *)
+(* An instruction is a tuple <<"Constant", 3>> (operation, operand a;      *)
+(* Process has a third element b, its function index); TailCall(true) is   *)
+(* a = 1, TailCall(false) is a = 0.  (bcdump writes {"op":..,"a":..}; the  *)
+(* engine re-encodes it as ["op", a] -- TLC parses tuples much faster.)    *)
 (* T is the record of table sizes of the image the function belongs to:    *)
 (*   nconst, ntypes, nbuiltins : sizes;  arity : tuple id -> field count;  *)
 (*   caps : function index -> capture count   (sequences, id + 1).         *)
@@ -17,65 +19,117 @@
 (***************************************************************************)
 EXTENDS Integers, Sequences
 
+Op(I) == I[1]
+A(I)  == I[2]
+B(I)  == I[3]
+
+Dyn == 99   \* "depends on the operand / the tables": see NeedsDyn, DeltaDyn
+
+(***************************************************************************)
+(* The table.  needs = operands the handler takes from (or inspects on)    *)
+(* the stack; delta = net change of the height once the instruction has    *)
+(* completed (for Call / Spawn / Send / Select: the whole call, spawn,     *)
+(* send, select -- the callee is well-formed by induction: it consumes its *)
+(* argument and leaves one result).                                        *)
+(*   Constant  push                         handle_constant                *)
+(*   Pop       pop                          handle_pop                     *)
+(*   Duplicate needs a top, pushes a copy   handle_duplicate               *)
+(*   Pick(n)   needs n+1, pushes a copy     handle_pick   (len <= n: err)  *)
+(*   Rotate(n) needs n, permutes            handle_rotate (len < n: err)   *)
+(*   Reset(i)  locals := i                  handle_reset  (i > l: err)     *)
+(*   Load(i)   push locals[i]               handle_load   (undefined: err) *)
+(*   Store     pop into a new local         handle_store                   *)
+(*   Tuple(t)  pop arity[t], push 1         handle_tuple                   *)
+(*   Get(i)    pop tuple, push field        handle_get                     *)
+(*   IsType(t) pop, push Ok / nil           handle_is_type                 *)
+(*   Jump(o)   pc := pc + o + 1             handle_jump                    *)
+(*   JumpIf(o) pop; jump if not nil         handle_jump_if                 *)
+(*   Call      pop fn and arg, push arg, new frame; at return the result   *)
+(*             replaces the arg (builtin: pop 2 push 1)   handle_call      *)
+(*   TailCall(true)  pop arg, cut locals to captures, push arg, pc := 0    *)
+(*   TailCall(false) pop fn and arg, locals := callee captures, push arg   *)
+(*   Function(f) pop captures[f], push closure           handle_function   *)
+(*   Builtin(b) push                        handle_builtin                 *)
+(*   Equal(n)  pop n, push 1                handle_equal  (n > len: err)   *)
+(*   Not       pop, push                    handle_not                     *)
+(*   Spawn     pop fn and arg; notify_spawn pushes the pid                 *)
+(*   Send      pop target and message, push target back   handle_send      *)
+(*   Self      push pid                     handle_self                    *)
+(*   Select    pop sources ... push the selected value    handle_select    *)
+(*   Process(p, f) push pid value           handle_process_ref             *)
+(***************************************************************************)
+Info == [
+  Constant  |-> [needs |-> 0,   delta |-> 1],
+  Pop       |-> [needs |-> 1,   delta |-> -1],
+  Duplicate |-> [needs |-> 1,   delta |-> 1],
+  Pick      |-> [needs |-> Dyn, delta |-> 1],
+  Rotate    |-> [needs |-> Dyn, delta |-> 0],
+  Reset     |-> [needs |-> 0,   delta |-> 0],
+  Load      |-> [needs |-> 0,   delta |-> 1],
+  Store     |-> [needs |-> 1,   delta |-> -1],
+  Tuple     |-> [needs |-> Dyn, delta |-> Dyn],
+  Get       |-> [needs |-> 1,   delta |-> 0],
+  IsType    |-> [needs |-> 1,   delta |-> 0],
+  Jump      |-> [needs |-> 0,   delta |-> 0],
+  JumpIf    |-> [needs |-> 1,   delta |-> -1],
+  Call      |-> [needs |-> 2,   delta |-> -1],
+  TailCall  |-> [needs |-> Dyn, delta |-> Dyn],
+  Function  |-> [needs |-> Dyn, delta |-> Dyn],
+  Builtin   |-> [needs |-> 0,   delta |-> 1],
+  Equal     |-> [needs |-> Dyn, delta |-> Dyn],
+  Not       |-> [needs |-> 1,   delta |-> 0],
+  Spawn     |-> [needs |-> 2,   delta |-> -1],
+  Send      |-> [needs |-> 2,   delta |-> -1],
+  Self      |-> [needs |-> 0,   delta |-> 1],
+  Select    |-> [needs |-> 1,   delta |-> 0],
+  Process   |-> [needs |-> 0,   delta |-> 1]]
+
+\* only meaningful when IndexOK
+NeedsDyn(I, T) ==
+  CASE Op(I) = "Pick"     -> A(I) + 1
+    [] Op(I) = "Rotate"   -> A(I)
+    [] Op(I) = "Equal"    -> A(I)
+    [] Op(I) = "Tuple"    -> T.arity[A(I) + 1]
+    [] Op(I) = "Function" -> T.caps[A(I) + 1]
+    [] Op(I) = "TailCall" -> IF A(I) = 1 THEN 1 ELSE 2
+
+DeltaDyn(I, T) ==
+  CASE Op(I) = "Tuple"    -> 1 - T.arity[A(I) + 1]
+    [] Op(I) = "Function" -> 1 - T.caps[A(I) + 1]
+    [] Op(I) = "Equal"    -> 1 - A(I)
+    [] Op(I) = "TailCall" -> IF A(I) = 1 THEN 0 ELSE -1
+
+Needs(I, T) == LET n == Info[Op(I)].needs IN IF n = Dyn THEN NeedsDyn(I, T) ELSE n
+Delta(I, T) == LET d == Info[Op(I)].delta IN IF d = Dyn THEN DeltaDyn(I, T) ELSE d
+
 \* every table index an instruction carries is in range (handle_constant: ConstantUndefined,
 \* handle_tuple: unknown type, handle_function: FunctionUndefined, handle_builtin:
 \* BuiltinUndefined; IsType silently answers "no" for an unknown type id; Process(p, f) builds a
 \* pid value whose function index types the process).
 IndexOK(I, T) ==
-  CASE I.op = "Constant" -> I.a >= 0 /\ I.a < T.nconst
-    [] I.op = "Tuple"    -> I.a >= 0 /\ I.a < Len(T.arity)
-    [] I.op = "IsType"   -> I.a >= 0 /\ I.a < T.ntypes
-    [] I.op = "Function" -> I.a >= 0 /\ I.a < Len(T.caps)
-    [] I.op = "Builtin"  -> I.a >= 0 /\ I.a < T.nbuiltins
-    [] I.op = "Process"  -> I.b >= 0 /\ I.b < Len(T.caps)
+  CASE Op(I) = "Constant" -> A(I) >= 0 /\ A(I) < T.nconst
+    [] Op(I) = "Tuple"    -> A(I) >= 0 /\ A(I) < Len(T.arity)
+    [] Op(I) = "IsType"   -> A(I) >= 0 /\ A(I) < T.ntypes
+    [] Op(I) = "Function" -> A(I) >= 0 /\ A(I) < Len(T.caps)
+    [] Op(I) = "Builtin"  -> A(I) >= 0 /\ A(I) < T.nbuiltins
+    [] Op(I) = "Process"  -> B(I) >= 0 /\ B(I) < Len(T.caps)
     [] OTHER -> TRUE
 
 \* Rotate(0) would remove at index len (panic), Equal(0) indexes an empty vector (panic)
 OperandOK(I) ==
-  CASE I.op = "Rotate" -> I.a >= 1
-    [] I.op = "Equal"  -> I.a >= 1
-    [] I.op \in {"Pick", "Get", "Load", "Reset"} -> I.a >= 0
-    [] OTHER -> TRUE
-
-\* operands the handler takes from (or inspects on) the stack; only meaningful when IndexOK
-Needs(I, T) ==
-  CASE I.op \in {"Constant", "Load", "Reset", "Jump", "Builtin", "Self", "Process"} -> 0
-    [] I.op \in {"Pop", "Duplicate", "Store", "Get", "IsType", "JumpIf", "Not", "Select"} -> 1
-    [] I.op = "Pick"     -> I.a + 1
-    [] I.op = "Rotate"   -> I.a
-    [] I.op = "Equal"    -> I.a
-    [] I.op = "Tuple"    -> T.arity[I.a + 1]
-    [] I.op = "Function" -> T.caps[I.a + 1]
-    [] I.op \in {"Call", "Spawn", "Send"} -> 2
-    [] I.op = "TailCall" -> IF I.a = 1 THEN 1 ELSE 2
-
-\* net change of the height once the instruction (for Call/Spawn/Send/Select: the whole
-\* call / spawn / send / select, callee well-formed by induction) has completed
-Delta(I, T) ==
-  CASE I.op \in {"Constant", "Duplicate", "Pick", "Load", "Builtin", "Self", "Process"} -> 1
-    [] I.op \in {"Pop", "Store", "JumpIf", "Call", "Spawn", "Send"} -> -1
-    [] I.op \in {"Rotate", "Get", "IsType", "Jump", "Not", "Select", "Reset"} -> 0
-    [] I.op = "Tuple"    -> 1 - T.arity[I.a + 1]
-    [] I.op = "Function" -> 1 - T.caps[I.a + 1]
-    [] I.op = "Equal"    -> 1 - I.a
-    [] I.op = "TailCall" -> IF I.a = 1 THEN 0 ELSE -1
+  CASE Op(I) = "Rotate" -> A(I) >= 1
+    [] Op(I) = "Equal"  -> A(I) >= 1
+    [] OTHER -> A(I) >= 0 \/ Op(I) \in {"Jump", "JumpIf"}
 
 \* requirement on the locals
 LocalsOK(I, l) ==
-  CASE I.op = "Load"  -> I.a < l       \* VariableUndefined otherwise
-    [] I.op = "Reset" -> I.a <= l      \* handle_reset: target > len is an error
+  CASE Op(I) = "Load"  -> A(I) < l       \* VariableUndefined otherwise
+    [] Op(I) = "Reset" -> A(I) <= l      \* handle_reset: target > len is an error
     [] OTHER -> TRUE
 
 \* locals after the instruction
 LocalsAfter(I, l) ==
-  CASE I.op = "Store" -> l + 1
-    [] I.op = "Reset" -> I.a
+  CASE Op(I) = "Store" -> l + 1
+    [] Op(I) = "Reset" -> A(I)
     [] OTHER -> l
-
-\* pcs control can reach next, in the order (fall-through, jump target); TailCall ends the path
-Succs(I, pc) ==
-  CASE I.op = "Jump"     -> <<pc + I.a + 1>>
-    [] I.op = "JumpIf"   -> <<pc + 1, pc + I.a + 1>>
-    [] I.op = "TailCall" -> <<>>
-    [] OTHER -> <<pc + 1>>
 =============================================================================
